@@ -193,9 +193,10 @@ class Recorder:
             if h not in self.nontrivial:
                 self.nontrivial.add(h)
                 if len([s for s in self.samples if s["check"] == check]) < 2:
-                    self.samples.append(
-                        {"check": check, "case": short(sample if sample is not None else case, 600)}
-                    )
+                    obj = jsonable(sample if sample is not None else case)
+                    if len(json.dumps(obj)) > 900:
+                        obj = short(obj, 900)
+                    self.samples.append({"check": check, "case": obj})
 
     def classify(self, check, v):
         """Return the matching open finding or None."""
